@@ -109,6 +109,18 @@ def landing_script(k):
             {'op': 'tagged_wait_empty', 'within': 10, 'tag': 'left'}]
 
 
+def sigterm_landing_script(k):
+    """SIGTERM reaching the server when its main thread is at point k of serving the second client (a first child is running)."""
+    return [{'op': 'land_spec', 'arm': dict(S_ARM, hit=2), 'events': [{'k': k, 'action': 'sigterm'}]},
+            {'op': 'respawn_server', 'tag': 'server'},
+            {'op': 'create', 'var': 'wc', 'kind': 'R', 'target': 'cooperative', 'tag': 'bystander'},
+            {'op': 'create_async', 'var': 'w', 'kind': 'R', 'target': 'cooperative', 'timeout': 25},
+            {'op': 'join_create', 'var': 'w', 'timeout': 20, 'tag': 'ctor', 'stop_on_hang': False},
+            {'op': 'land_off'},
+            {'op': 'poll_dead', 'var': 'wc', 'timeout': 10, 'tag': 'by-dead'},
+            {'op': 'tagged_wait_empty', 'within': 10, 'tag': 'left'}]
+
+
 def run(ctx):
     ctx.rule = ('population = multiset of children states on a fresh server x {terminate(), SIGTERM}; landing = the stop request landing at LINE '
                 'event k of the server main thread between accept() returning and the next accept(); distinct = (population, how) or k')
@@ -140,6 +152,10 @@ def run(ctx):
         sc = landing_script(k)
         jobs.append({'script': sc})
         plan.append(('land', k, srv_sites[k - 1], sc))
+    for k in ks:
+        sc = sigterm_landing_script(k)
+        jobs.append({'script': sc})
+        plan.append(('land-sigterm', k, srv_sites[k - 1], sc))
     ctx.extra['server_landing_points'] = len(srv_sites)
     # the stop arriving while the *parent* is at each line of its side of the start-up (it is held there, the server goes away)
     from . import c20
@@ -188,6 +204,31 @@ def run(ctx):
             if bad:
                 ctx.violation('LAND/stop-%s-while-parent@%s/%s' % (how, land.site_sig(site, os.environ.get('PWV_REPO', '/repo')), bad[0]),
                               {'k': k, 'site': site, 'how': how}, bad[1], 'the parent finds out without blocking', engine='LAND')
+        elif p[0] == 'land-sigterm':
+            _, k, site, sc = p
+            ctx.distinct(('land-sigterm', k))
+            if obs.get('driver_hang') or obs.get('driver_error'):
+                # the process which creates the worker (the driver) is gone: the stopping server signalled its client
+                ctx.outcome('landing-sigterm:client-process-killed')
+                ctx.violation('LAND/stop-sigterm@%s/client-process-killed-or-hung' % land.site_sig(site, os.environ.get('PWV_REPO', '/repo')),
+                              {'k': k, 'site': site, 'how': 'sigterm'}, str(obs.get('driver_hang') or obs.get('driver_error'))[:200],
+                              'the server signals its own children only', engine='LAND')
+                continue
+            t = {}
+            for op, st in zip(sc, obs['steps']):
+                if op.get('tag'):
+                    t[op['tag']] = st
+            bad = None
+            if t.get('ctor', {}).get('hang'):
+                bad = ('client-constructor-hangs', t.get('ctor'))
+            elif t.get('left', {}).get('ret'):
+                bad = ('processes-left-behind', t.get('left'))
+            elif t.get('by-dead', {}).get('ret') is not True:
+                bad = ('running-child-parent-does-not-find-out', t.get('by-dead'))
+            ctx.outcome('landing-sigterm:%s' % (bad[0] if bad else 'ok'))
+            if bad:
+                ctx.violation('LAND/stop-sigterm@%s/%s' % (land.site_sig(site, os.environ.get('PWV_REPO', '/repo')), bad[0]),
+                              {'k': k, 'site': site, 'how': 'sigterm'}, bad[1], 'children reaped, client constructor returns or raises', engine='LAND')
         else:
             _, k, site, sc = p
             ctx.distinct(('land', k))
